@@ -39,6 +39,9 @@ var c04Snippets = map[string]string{
 
 // second variants for the stateful tags
 var c04Extra = []string{
+	"{{ obj.Name }}|{{ obj.ID }}",              // the same path over values of different struct types in different executions
+	"{% include \"incfail\" %}",                 // an included template that produces output and then may fail
+	"{% for i in l %}{{ obj.Name }}{% include \"incfail\" %}{% endfor %}",
 	"{% ifchanged %}{{ s }}{% endifchanged %}",                          // ifchanged at top level, comparing its body
 	"{% for i in l %}{% ifchanged %}[{{ i }}]{% endifchanged %}{% endfor %}", // ifchanged body comparison in a loop
 	"{% cycle \"a\" \"b\" as cv %}{% cycle cv %}",                         // cycle with a named value
@@ -71,6 +74,17 @@ type c04Data struct {
 	s   string
 	c   bool
 	bad bool
+	alt bool // which struct type the context entry obj has
+}
+
+type c04T1 struct {
+	ID   int
+	Name string
+}
+
+type c04T2 struct {
+	Name string
+	ID   int
 }
 
 func c04SymData(maxLen int) c04Data {
@@ -79,12 +93,16 @@ func c04SymData(maxLen int) c04Data {
 	for i := range l {
 		l[i] = string([]byte{verifByte()&0x0f | 0x40})
 	}
-	return c04Data{l: l, s: string([]byte{verifByte()&0x0f | 0x40}), c: verifBool(), bad: verifBool()}
+	return c04Data{l: l, s: string([]byte{verifByte()&0x0f | 0x40}), c: verifBool(), bad: verifBool(), alt: verifBool()}
 }
 
 func (d c04Data) ctx() Context {
 	bad := d.bad
-	return Context{"l": d.l, "s": d.s, "c": d.c, "bad": bad, "lazyname": "inc",
+	var obj any = c04T1{ID: 7, Name: d.s}
+	if d.alt {
+		obj = c04T2{Name: d.s, ID: 7}
+	}
+	return Context{"l": d.l, "s": d.s, "c": d.c, "bad": bad, "lazyname": "inc", "obj": obj,
 		"f": func(b bool) (string, error) {
 			if b {
 				return "", errHarness
@@ -96,6 +114,7 @@ func (d c04Data) ctx() Context {
 func c04Setup(tb, ls bool) (*TemplateSet, *memLoader) {
 	ml := &memLoader{files: map[string]string{
 		"inc":  "<{{ s }}>\n{% if c %}i{% endif %}\n",
+		"incfail": "head-{{ s }}-{{ f(bad) }}-tail",
 		"lib":  "{% macro mm(p) export %}({{ p }}){% endmacro %}",
 		"base": "B{% block bb %}base{% endblock %}\n{% if c %}t{% endif %}\nE",
 	}}
@@ -156,6 +175,13 @@ func HarnessC04() {
 	verifAssert(err == nil, "program must compile again")
 	of, okf := c04Exec(fresh, d1)
 	verifAssert(okf == ok3 && of == o3, "a used template must render like a freshly compiled one")
+	// the same through ExecuteWriter (its buffering must not carry anything over from earlier runs)
+	w := &c14Writer{}
+	e4 := tpl.ExecuteWriter(d1.ctx(), w)
+	verifAssert((e4 == nil) == ok1, "ExecuteWriter after earlier executions: error-ness differs")
+	if ok1 {
+		verifAssert(string(w.data) == o1, "ExecuteWriter after earlier executions (possibly failed ones) produced different bytes")
+	}
 }
 
 func c05Known(prog string, tb, ls bool) {
